@@ -18,12 +18,18 @@ SPEC = dict(
          "correct PLAIN login and 3 / 4 over the 11 symbols after a SASL2 login with inline bind (a word whose "
          "connection died after k symbols stands for all words with that prefix), DIGEST-MD5 exchanges (SASL and SASL2, both checkers) to length 3/4 over a 14-symbol alphabet of "
          "responses computed from the right / a wrong / the empty password for known, unknown and temporarily failing users, from "
-         "another account's secret, and recorded responses replayed over a stale nonce; plus seeded random scripts up to 20 elements "
+         "another account's secret, and recorded responses replayed over a stale nonce; an alphabet of names containing '/' and '@' "
+         "(an account literally called victim@example.org/x), PLAIN/DIGEST authorization identities and from/to in another case; "
+         "TWO attacker connections logged in as the same user over a 14-symbol alphabet (same/different resource, conflict, "
+         "rebind, stanzas to each other's full and bare jid, leaving, becoming somebody else) to length 3/4; "
+         "plus seeded random scripts up to 20 elements, half of them interleaving two connections "
          "(mostly starting with a correct login); a fresh server, victim login and attacker connection per script. Every line compares "
          "with the Lean model: canonical elements received by attacker and victim, stanzas the attacker's QXmppIncomingClient emitted "
          "for routing, clientConnected/clientDisconnected signals, the jid at each auth.success counter and the server-side jid() after "
-         "the step. Inputs on which the C++ dereferences a disengaged sasl2AuthRequest are predicted 'ub' by the "
-         "model and not executed. The witnesses of the four former findings are the first corpus scripts. A sequence is non-trivial when it yields >= 2 distinct observations.",
+         "the step. Inputs on which the C++ dereferences an unset sasl2AuthRequest are predicted 'ub' by the "
+         "model and not executed; a write through a routing entry that outlived its connection is observed (incoming clients are "
+         "kept alive until the end of the script, the write shows up as a 'sent' log of a closed client) and must be predicted "
+         "'ub' by the model; both are also run for real in a child process (crash = finding). The witnesses of the four former findings are the first corpus scripts. A sequence is non-trivial when it yields >= 2 distinct observations.",
     trusted_base=[
         "Lean 4.33.0 kernel; axioms per theorem listed under coverage.theorems (subset of propext, Classical.choice, Quot.sound)",
         "hand-written model lean/Qx/Model/C16Server.lean, tied to src/server/QXmppIncomingClient.cpp, src/server/QXmppServer.cpp, "
@@ -39,21 +45,28 @@ SPEC = dict(
         "defaults do (Cfg.ofGetPassword, theorem auth_only_if_getPassword_approves); answered when asked and delivered at an arbitrary later "
         "point (QXmppPasswordReply::finished); user names/domains compared as raw strings as the code does",
         "no server extensions, no S2S listener, no TLS (setLocalCertificate not called): default stanza handler only",
-        "delivery through a routing-table entry that points to an already deleted connection (use-after-free in C++ after a rebind) "
-        "is modelled as 'nothing written' and is not reachable with one attacker connection per script; memory safety is not claimed",
-        "inputs that reach undefined behaviour in the C++ (SASL2 success with a reset or never-set sasl2AuthRequest) end the "
-        "modelled connection with an 'ub' output; nothing is claimed after such a point",
+        "server-to-server (QXmppIncomingServer/QXmppOutgoingServer, dialback) is OUT OF SCOPE: no S2S listener, stanzas to other "
+        "domains are not routed",
+        "inputs that reach undefined behaviour in the C++ (SASL2 success with a reset or never-set sasl2AuthRequest; a write "
+        "through a routing-table entry that outlived its connection) produce an 'ub' output; nothing is claimed after such a point",
+        "JIDs are compared as raw strings as the code does (no stringprep / case folding): an address in another case is simply "
+        "another address",
         "bind resources are not trimmed in the model (the harness sends none with surrounding white space); generated resources are "
         "canonicalised by order of first appearance",
     ],
-    level_text="Theorems for every checker, every number of connections and every interleaved script, without hypotheses on the "
-               "script: accepted only as a checker-approved user (auth_only_if_checker_approved), nothing bound/routed/answered "
-               "before authentication (needs_auth_only_authenticated, routes_/bind_only_authenticated), from stamping and no "
-               "spoofing (from_is_authenticated_jid, cannot_spoof, cannot_spoof_approved, replies_addressed_to_sender). Model tied "
-               "to the real server by exhaustive + random loopback scripts.",
-    level_note="Proved about the hand-written model; model-to-code tie is differential (exhaustive to a depth, sampled beyond). "
-               "Four former findings (pre-auth stanza routed, pre-auth bind, pre-auth session answered, checker reply applied to a "
-               "different SASL exchange) are fixed in the repo (73b9a89, e590a14); their witnesses stay in the corpus.",
+    level_text="Theorems for every checker (arbitrary, or getPassword-derived as the library defaults do), every number of connections "
+               "and every interleaving: a connection's jid is always derived (user@domain cut at the first '/', plus /resource) from "
+               "a user name whose credential the checker approved (auth_only_if_checker_approved, auth_only_if_getPassword_approves); "
+               "nothing is bound/routed/answered before authentication (needs_auth_only_authenticated); every routed or delivered "
+               "stanza carries the sending connection's own jid or its bare form (from_is_authenticated_jid, cannot_spoof, "
+               "cannot_spoof_approved, replies_addressed_to_sender). The LITERAL form 'jid = approved user@domain[/resource]' is "
+               "proved only when no approved name contains '/' (*_literal_partial) and refuted otherwise "
+               "(C16_defect_username_with_slash, C16_defect_slash_name_spoofs). Model tied to the real server by exhaustive + random "
+               "loopback scripts with one and two attacker connections and two checker flavours.",
+    level_note="Proved about the hand-written model; model-to-code tie is differential (exhaustive to a depth, sampled beyond). Open "
+               "findings: names with '/' or '@' accepted (identity of another user after bind), routing entries that outlive their "
+               "connection (crash), SASL2 success with an unset request (crash); fix diffs in fixes/. S2S/dialback out of scope. "
+               "The four findings of the first round are fixed in the repo (73b9a89, e590a14).",
     design_ref="5.16",
     technique="Lean 4 invariant proofs over op lists + model/implementation correspondence on loopback",
 )
